@@ -1344,7 +1344,7 @@ def run(ctx: Ctx) -> None:
             dispatch,
             [('control', (t, bound_of(t))) for t in terms[n_inline:]],
             procs=ctx.procs,
-            deadline=ctx.t0 + (600 if thorough else 40)):
+            deadline=ctx.t0 + (600 if thorough else 35)):
         _merge(ctx, part, r, viols)
         done += 1
         maxcalls = max(maxcalls, r['maxcalls'])
@@ -1353,7 +1353,7 @@ def run(ctx: Ctx) -> None:
     for part, r in pmap(
             dispatch, [('foreach', (w, thorough)) for w in fwork if w],
             procs=ctx.procs,
-            deadline=ctx.t0 + (1700 if thorough else 85)):
+            deadline=ctx.t0 + (1700 if thorough else 75)):
         _merge(ctx, part, r, viols)
         done_inputs += r['inputs']
         for nm in agg:
